@@ -245,8 +245,75 @@ def no_bypass(F, R):
          'a dispatcher writes a response directly to the sink, overtaking responses of earlier requests that are still queued: %s' % '; '.join(i['key'] for i in bad)[:300])
 
 
+def encoder_forwards(F, R):
+    """A response handed to the io layer is written or fails the connection, it is never swallowed: the connection's encoder
+    (MqttShared as Encoder, the one IoRef::encode of the io dispatcher runs) hands every item to the protocol codec - each
+    path to its return passes the codec's encodev, and its own Ok/Err is the codec's. The same for the decoder side: every
+    frame the io layer gives to decode() reaches the protocol codec."""
+    n = 0
+    for ver in ('v3', 'v5'):
+        for trait, meth in (('Encoder', 'encodev'), ('Decoder', 'decode')):
+            b = F.one(r'^<%s::shared::MqttShared as ntex_codec::%s>::%s$' % (ver, trait, meth))
+            inner = {bi for bi, t in b.calls_to(r'^<%s::codec::codec::Codec as ntex_codec::%s>::%s$' % (ver, trait, meth))}
+            n += len(inner)
+            skipped = [r for r in b.returns() if not b.must_pass(inner, r)]
+            R.ob('C04.no-drop', '%s|MqttShared::%s|every-item-reaches-the-codec' % (ver, meth), bool(inner) and not skipped,
+                 'the connection-level %s can return without handing the item to the protocol codec: a response (or an inbound frame) is dropped while the connection keeps running, so a request is never answered' % meth,
+                 b.loc(skipped[0]) if skipped else b.loc(0))
+            # an Ok of its own only where the codec said Ok (`match codec.encodev(..) { Ok(()) => Ok(()), Err(e) => Err(e) }`)
+            ok_edges = []
+            for sb in sorted(b.live):
+                tt = b.blocks[sb]['term']
+                pl = op_place(tt['discr']) if tt['k'] == 'switch' else None
+                for dd in (b.whole_defs(pl['l']) if pl and not place_proj(pl) else []):
+                    if dd[2] == 'assign' and dd[3]['rv']['k'] == 'discr' and any(l[0] == 'call' and l[2] in inner for l in Origin(b, transparent=re.compile(TRANSPARENT_CALLS.pattern[:-2] + r'|branch)$')).of_operand({'cp': {'l': dd[3]['rv']['place']['l']}}) if len(l) > 2):
+                        tg = dict((v_, x_) for v_, x_ in tt['targets'])
+                        if 0 in tg:
+                            ok_edges.append((sb, tg[0]))
+            own = [bi for bi, j, s in b.assigns() if s['lhs']['l'] == 0 and not place_proj(s['lhs']) and s['rv']['k'] == 'agg' and s['rv'].get('adt') == 'std::result::Result' and s['rv'].get('variant') == 'Ok'
+                   and not any(edge_dominates(b, sb, tb, bi) for sb, tb in ok_edges)]
+            R.ob('C04.no-drop', '%s|MqttShared::%s|Ok-only-when-the-codec-said-Ok' % (ver, meth), not own,
+                 'the connection-level %s reports success on a path where the protocol codec did not (item skipped, or its error discarded): the response is lost and the connection keeps running' % meth, b.loc(own[0]) if own else b.loc(0))
+    R.floor('C04.no-drop', 'codec delegations', n, 4)
+
+
+def answered(F, R):
+    """Requests that carry an answer (SUBSCRIBE, UNSUBSCRIBE, PUBLISH) end without one - the arm yields `None` for the
+    response slot - only when the connection is already closing (the `is_closed()` edge) or the answer was written on the spot
+    (the duplicate-id edge of inflight.insert, reviewed in C03.single-writer / C11.reserve). Any other condition that leads to
+    the empty answer leaves a request of a healthy connection without its response, and every later response moves up one
+    place in the peer's view."""
+    from disp import all_dispatchers, agg_sites
+    n = 0
+    for d in all_dispatchers(F):
+        b = d.call
+        edges = []
+        for bi, t in b.calls_to(r'::is_closed$'):
+            r = call_bool_branch(b, bi)
+            if r and r[0] != 'discr':
+                edges.append((r[0], r[1]))
+        for bi, t, ap in d.inflight_calls(b, 'insert'):
+            r = call_bool_branch(b, bi)
+            if r and r[0] != 'discr':
+                edges.append((r[0], r[2]))
+        for arm in ('Packet:Subscribe', 'Packet:Unsubscribe', 'Publish'):
+            reg = d.arm(arm)
+            if not reg:
+                continue
+            for bi, j, s in agg_sites(b, r'^std::option::Option$', 'None'):
+                if bi not in reg or not re.search(r'^std::option::Option<v[35]::codec::Encoded>$', b.local_ty(s['lhs']['l']) or ''):
+                    continue
+                n += 1
+                ok = any(edge_dominates(b, sb, tb, bi) for sb, tb in edges)
+                R.ob('C04.answered', '%s|%s|no-answer-only-when-closing-or-answered-directly' % (d.name, arm), ok,
+                     'the arm can finish without a response on a path that is neither the connection-closed edge nor the duplicate-id edge: the request of a healthy connection is never answered', b.loc(bi))
+    R.floor('C04.answered', 'empty-answer sites in request arms', n, 5)
+
+
 def run(F, R):
     no_bypass(F, R)
+    encoder_forwards(F, R)
+    answered(F, R)
     parked_polled(F, R)
     parked_kept(F, R)
     cs = queue_head(F, R)
